@@ -56,7 +56,8 @@ pub fn gen_cases(prop: &str, seed: u64, n: u64, out: &str) {
         if prop == "C04" {
             // advertised sizes of interest
             let adv = *r.pick(&[None, Some(0u16), Some(256), Some(512), Some(513), Some(1232), Some(4096), Some(65535)]);
-            q.opt = adv.map(|s| rn::Opt { udp_size: s, ..Default::default() });
+            // (with and without the DO flag: what a client may be sent depends on the size it advertised, nothing else)
+            q.opt = adv.map(|s| rn::Opt { udp_size: s, flags: if r.bool() { 0x8000 } else { 0 }, ..Default::default() });
         }
         let hostile = r.chance(1, 6);
         let mut up = rn::gen_reply(&mut r, &q, nrec, max_opaque, hostile);
